@@ -45,5 +45,8 @@ out = {"repo_head": head, "tier": tier, "total": len(results), "caught": sum(1 f
        "missed": [r["id"] for r in results if not r["caught"]], "results": results}
 if not sel:
     json.dump(out, open("selftest_results.json", "w"), indent=1)
+elif os.environ.get("SELFTEST_PART"):
+    # partial run (selected ids): written aside, merged into selftest_results.json by tools/selftest_merge.py
+    json.dump(out, open(os.environ["SELFTEST_PART"], "w"), indent=1)
 print(f"selftest: {out['caught']}/{out['total']} caught; missed: {out['missed']}")
 sys.exit(0 if not out["missed"] else 1)
